@@ -30,6 +30,9 @@ def load_known():
         return json.load(f)
 
 
+_POS = __import__("re").compile(r"@[\w./\\-]+\.rs:\d+:\d+: \d+:\d+")
+
+
 def body_hash(b):
     """hash of a function's MIR without source positions: equal iff the function compiled to the same code"""
     import hashlib
@@ -40,7 +43,10 @@ def body_hash(b):
         if isinstance(x, list):
             return [strip(v) for v in x]
         return x
-    return hashlib.sha1(json.dumps(strip({"l": [l.get("ty") for l in b["locals"]], "b": b["blocks"]}), sort_keys=True).encode()).hexdigest()[:16]
+    txt = json.dumps(strip({"l": [l.get("ty") for l in b["locals"]], "b": b["blocks"]}), sort_keys=True)
+    # closure / async-block type names carry the position of their source text: `{closure@src/x.rs:339:37: 339:46}`
+    txt = _POS.sub("@", txt)
+    return hashlib.sha1(txt.encode()).hexdigest()[:16]
 
 
 def changed_functions(raw, known=None):
@@ -154,6 +160,15 @@ def apply(raw, known=None):
                               and len(known["fns"][m]["sig"]) == len(ref["sig"]) and known["fns"][m]["sig"][0] == ref["sig"][0]]
             if len(loose) == 1 and not others_missing:
                 cands = loose
+        if not cands:
+            # moved onto another type of the same module (a method of the client becomes a method of its inner state, a free
+            # function becomes a method): same module, same arity and return type, and the only missing / new pair of that shape
+            mod = old.split("::")[0]
+            shape = (len(ref["sig"]), ref["sig"][0])
+            wide = [p for p in new if p.split("::")[0] == mod and (len(cur["fns"][p]["sig"]), cur["fns"][p]["sig"][0]) == shape]
+            wide_missing = [m for m in missing if m != old and m.split("::")[0] == mod and (len(known["fns"][m]["sig"]), known["fns"][m]["sig"][0]) == shape]
+            if len(wide) == 1 and not wide_missing and ref["sig"][0] not in ("()", "bool"):
+                cands = wide
         if len(cands) == 1 and cands[0] not in pmap:
             pmap[cands[0]] = old
     if pmap:
